@@ -38,9 +38,9 @@ def b2s (b : Bool) : String := if b then "1" else "0"
 /-- the enumeration of corpus/C09/lit.exp: `TYPE color = ENUMERATION OF (red, green, blue_1)` in `element_at` order -/
 def colorItems : List (List Byte) := [Dbl.ascii "RED", Dbl.ascii "GREEN", Dbl.ascii "BLUE_1"]
 
-/-- the instance manager of harness/h_literals.cc: #1 #5 #12 #123 are `tgt`, #7 is `other` -/
+/-- the instance manager of harness/h_literals.cc: #1 #5 #12 #123 #2147483647 are `tgt`, #7 is `other` -/
 def lookup (id : Int) : RefLookup :=
-  if id == 1 || id == 5 || id == 12 || id == 123 then .found else if id == 7 then .wrongType else .missing
+  if id == 1 || id == 5 || id == 12 || id == 123 || id == 2147483647 then .found else if id == 7 then .wrongType else .missing
 
 def parseKind : String → Option Kind
   | "INTEGER" => some .integer | "REAL" => some .real | "NUMBER" => some .number | "STRING" => some .string
